@@ -1,7 +1,8 @@
 (* C06 -- property theorems.  Statements only; every proof is `exact <lemma>`. *)
 From Coq Require Import ZArith List Bool.
 Import ListNotations.
-Require Import EmbossV.Text.IntCodec EmbossV.Text.ProofsInt EmbossV.Text.ProofsToken.
+Require Import EmbossV.Text.IntCodec EmbossV.Text.ProofsInt EmbossV.Text.ProofsToken EmbossV.Text.StructText
+               EmbossV.Text.ProofsStruct EmbossV.Text.ProofsArray EmbossV.Text.ProofsRoundtrip.
 Open Scope Z_scope.
 
 (* ---------------- integer text codec ---------------- *)
@@ -85,3 +86,105 @@ Proof. exact next_token_skip_space. Qed.
 Theorem token_skips_comment : forall body a,
   forallb no_newline body = true -> next_token (ch_hash :: body ++ ch_lf :: a) = next_token a.
 Proof. exact next_token_skip_comment. Qed.
+
+(* ---------------- structures: what is emitted ---------------- *)
+
+(* emit_order: the text of a structure is "{" ++ the texts of its fields, concatenated in the order
+   in which the fields are given (the harness gives fields_in_dependency_order of the real front
+   end) ++ "}" *)
+Theorem emit_order : forall g o fs,
+  write_val g o (VStruct fs) =
+    open_text o ++ concat (chunks g (plus_one_indent o) fs false) ++ close_text o.
+Proof. exact emit_order_lem. Qed.
+
+(* skip_absent: with the generator table of the working tree (checked each run: gentab_ok), a field
+   marked [text_output: "Skip"], or an absent field, contributes no text *)
+Theorem skip_absent : forall g fo wrote fi fv,
+  gentab_ok g = true -> (f_attr fi = ASkip \/ f_present fi = false) -> field_chunk g fo wrote fi fv = [].
+Proof. exact skip_absent_lem. Qed.
+
+(* emit_present: a present field without attribute or marked "Emit" is written: as `name: value`,
+   or, when read-only, as the comment `# name: value` if comments are on *)
+Theorem emit_present : forall g fo wrote fi fv,
+  gentab_ok g = true -> f_attr fi <> ASkip -> f_present fi = true ->
+  field_chunk g fo wrote fi fv =
+    if f_ro fi then
+      (if o_comments fo then o_cur fo ++ s_hash_sp ++ f_name fi ++ s_colon_sp ++ write_val g fo fv ++ s_lf else [])
+    else
+      (if o_multiline fo then o_cur fo else (if wrote then [ch_comma] else []) ++ [ch_space]) ++
+      f_name fi ++ s_colon_sp ++ write_val g fo fv ++ (if o_multiline fo then s_lf else []).
+Proof. exact emit_present_lem. Qed.
+
+(* finding F2 (fixed in /repo by 5b3353e): for the table of the generator before the fix the
+   statement above fails *)
+Theorem emit_present_fails_for_f2_table :
+  exists fo wrote fi fv, f_attr fi = AEmit /\ f_present fi = true /\ f_ro fi = false /\
+                         field_chunk gt_f2 fo wrote fi fv = [].
+Proof. exact emit_present_fails_for_f2_table_lem. Qed.
+
+(* ---------------- structures: the text is read back ---------------- *)
+
+(* text_roundtrip (scalars, enums by name or number, nested structures, arrays of any of these;
+   every re-readable option set: bases 2/10/16, grouping, single line without comments, multi-line with or without comments,
+   any blank indent): for ANY store W with ANY TryToWrite, UpdateFromText of WriteToString's result
+   returns true, consumes the whole text, and has performed exactly the TryToWrite calls
+   events_of lists -- (path, value) of every field written as `name: value`, in emission order. *)
+Theorem text_roundtrip : forall (W : Type) (tw : list pelem -> wv -> W -> option W) g o fs w w' fuel,
+  wf_val g (VStruct fs) -> opts_ok o -> (need (VStruct fs) <= fuel)%nat ->
+  apply_events W tw (events_of g [] (VStruct fs)) w = Some w' ->
+  exists s, update_from_text W tw fuel (schema_of (VStruct fs)) (write_to_string g o (VStruct fs)) w = UOk s w' /\
+            snd s = [].
+Proof. exact text_roundtrip_lem. Qed.
+
+(* the finding "multi-line arrays cannot be read back" (fixed in /repo by 4bd9029) as a positive
+   theorem about the repaired reader: an array value alone, any element shape, both layouts *)
+Theorem array_roundtrip : forall (W : Type) (tw : list pelem -> wv -> W -> option W) g o a es path w w' fuel,
+  wf_val g (VArray a es) -> opts_ok o -> (need (VArray a es) <= fuel)%nat ->
+  apply_events W tw (events_of g path (VArray a es)) w = Some w' ->
+  exists s, update W tw fuel (schema_of (VArray a es)) path (st_of (write_val g o (VArray a es))) w = UOk s w' /\
+            snd s = [].
+Proof. exact array_roundtrip_lem. Qed.
+
+(* struct_roundtrip_partial: the gap is the storage step Hstore (TryToWrite calls of the emitted
+   fields, performed in dependency order on the zeroed buffer, succeed and read back) -- layout
+   semantics of C01/C03 and the order of C15. *)
+Theorem struct_roundtrip_partial :
+  forall (W : Type) (tw : list pelem -> wv -> W -> option W) (rd : list pelem -> W -> option wv)
+         g o fs zeroed restored fuel,
+    wf_val g (VStruct fs) -> opts_ok o -> (need (VStruct fs) <= fuel)%nat ->
+    forall Hstore : apply_events W tw (events_of g [] (VStruct fs)) zeroed = Some restored /\
+                    (forall p x, In (p, x) (events_of g [] (VStruct fs)) -> rd p restored = Some x),
+    exists s, update_from_text W tw fuel (schema_of (VStruct fs)) (write_to_string g o (VStruct fs)) zeroed
+              = UOk s restored /\ snd s = [] /\
+              (forall p x, In (p, x) (events_of g [] (VStruct fs)) -> rd p restored = Some x).
+Proof. exact struct_roundtrip_partial_lem. Qed.
+
+Theorem events_emitted : forall g path fi fv pre post,
+  emits_value g fi = true ->
+  events_of g path (VStruct (pre ++ (fi, fv) :: post)) =
+    events_of g path (VStruct pre) ++ events_of g (path ++ [PField (f_name fi)]) fv ++ events_of g path (VStruct post).
+Proof. exact events_emitted_lem. Qed.
+
+(* ---------------- non-vacuity ---------------- *)
+Example example_view_wf : wf_val gt_std ex_view /\ opts_ok ex_opts.
+Proof. exact ex_wf. Qed.
+
+Example example_roundtrip :
+  exists s w, update_from_text (list event) ex_rec 40 (schema_of ex_view) (write_to_string gt_std ex_opts ex_view) []
+              = UOk s w /\ snd s = [] /\ rev w = events_of gt_std [] ex_view /\ length w = 8%nat.
+Proof. exact ex_roundtrip. Qed.
+
+Example example_roundtrip_single_line :
+  opts_ok ex_opts_single /\
+  exists s w, update_from_text (list event) ex_rec 40 (schema_of ex_view) (write_to_string gt_std ex_opts_single ex_view) []
+              = UOk s w /\ snd s = [] /\ rev w = events_of gt_std [] ex_view.
+Proof. exact ex_roundtrip_single. Qed.
+
+Example example_codec :
+  encode_int (mk_ity true W8) (-128) 2 true = Ok [45; 48; 98; 49; 48; 48; 48; 48; 48; 48; 48] /\
+  decode_int (mk_ity true W8) [45; 48; 98; 49; 48; 48; 48; 48; 48; 48; 48] = Ok (-128) /\
+  decode_int (mk_ity true W8) [49; 50; 56] = Reject /\ numeral_value true [49; 50; 56] = Some 128 /\
+  decode_int (mk_ity false W8) [45; 49] = Reject /\
+  encode_int (mk_ity false W64) 18446744073709551615 10 true =
+    Ok [49;56;95;52;52;54;95;55;52;52;95;48;55;51;95;55;48;57;95;53;53;49;95;54;49;53].
+Proof. vm_compute. repeat split. Qed.
